@@ -40,6 +40,14 @@ def _key(e):
     return "%s:unjustified-header-took-effect:%s" % (fl, "+".join(sorted(cls)) or "none")
 
 
+def _driver(ctx, binary, args, input_obj):
+    """ctx.driver, but an unreadable driver output is 'no verdict' (exit 2), never an exit-1 traceback."""
+    try:
+        return ctx.driver(binary, args, input_obj=input_obj)
+    except (ValueError, UnicodeError) as e:
+        ctx.fail("driver output unreadable: %r" % (e,))
+
+
 def run(ctx):
     q = ctx.quick
     b = ctx.build("vd-ontneo")
@@ -61,7 +69,7 @@ def run(ctx):
                     edges.append(e2)
         for i, e in enumerate(edges):
             e["idx"] = i
-    out = ctx.driver(b, ["c31"], input_obj=edges)
+    out = _driver(ctx, b, ["c31"], input_obj=edges)
     summ = [o for o in out if o.get("summary")][0]
     obs = [o for o in out if not o.get("summary")]
     if len(obs) != len(edges):
